@@ -253,7 +253,14 @@ func (e *FuncEnc) havocAll(st *state) {
 // preservePrivate states that non-escaping local allocations keep their
 // content across a havoc of heap `key`.
 func (e *FuncEnc) preservePrivate(key, old, nu string) {
-	for a, sym := range e.privateSyms {
+	// deterministic order: the script a solver sees must not depend on map iteration
+	allocs := make([]*ssa.Alloc, 0, len(e.privateSyms))
+	for a := range e.privateSyms {
+		allocs = append(allocs, a)
+	}
+	sort.Slice(allocs, func(i, j int) bool { return e.privateSyms[allocs[i]] < e.privateSyms[allocs[j]] })
+	for _, a := range allocs {
+		sym := e.privateSyms[a]
 		if e.noPreserve[a] {
 			continue
 		}
@@ -1087,7 +1094,7 @@ func (e *FuncEnc) loopFrame(li *loopInfo, key, before, after string) {
 		return false
 	}
 	var conds []string
-	for b := range li.body {
+	for _, b := range li.blocks() {
 		for _, in := range b.Instrs {
 			switch x := in.(type) {
 			case *ssa.Store:
@@ -1226,7 +1233,7 @@ func (e *FuncEnc) privateWrittenIn(li *loopInfo) map[*ssa.Alloc]bool {
 		}
 		return nil
 	}
-	for b := range li.body {
+	for _, b := range li.blocks() {
 		for _, in := range b.Instrs {
 			switch x := in.(type) {
 			case *ssa.Store:
@@ -1253,5 +1260,25 @@ func (e *FuncEnc) privateWrittenIn(li *loopInfo) map[*ssa.Alloc]bool {
 			}
 		}
 	}
+	return out
+}
+
+// blocks: the loop body in block order (the script must not depend on map iteration).
+func (li *loopInfo) blocks() []*ssa.BasicBlock {
+	out := make([]*ssa.BasicBlock, 0, len(li.body))
+	for b := range li.body {
+		out = append(out, b)
+	}
+	sort.Slice(out, func(i, j int) bool { return out[i].Index < out[j].Index })
+	return out
+}
+
+// loopList: the loops in header order.
+func (e *FuncEnc) loopList() []*loopInfo {
+	out := make([]*loopInfo, 0, len(e.loops))
+	for _, li := range e.loops {
+		out = append(out, li)
+	}
+	sort.Slice(out, func(i, j int) bool { return out[i].header.Index < out[j].header.Index })
 	return out
 }
